@@ -1,6 +1,6 @@
 SPECIFICATION Spec
 CONSTANTS
-  Family = "compact"
+  Family = "read"
   NTs = 4
   NFiles = 2
   NKeys = 1
@@ -9,6 +9,7 @@ CONSTANTS
   KeyMode = "full"
   MaxLen = 0
   PPBs <- PPBSmall
-  Picks <- NoPicks
-INVARIANTS LWWIsFold CompactLemmas
+  NPicks = 0
+  PickAt <- NoPick
+INVARIANTS LWWIsFold ReadLemmas
 CHECK_DEADLOCK FALSE
